@@ -126,10 +126,7 @@ def run(v, tier, rng):
         i = spec_idx[k]
         p, tag = progs[i]
         w = {"source": cases[i]["srcs"][0], "got": res[str(i)]["calls"][0]["out"], "why": "output differs from the data-directive specification (Spec/DataProg.v)"}
-        if is_unaligned_alignb(p):
-            v.finding("C05-alignb-unaligned-origin", w)
-        else:
-            v.violation("data directive output differs from specification", w)
+        v.violation("data directive output differs from specification", w)
     if bad and not v.violations:
         for k in bad[:3]:
             v.tie_broken("correspondence Model/Asm.v vs gosk (C05 programs)",
